@@ -84,11 +84,34 @@ func TestSchema(t *testing.T) {
 			ev.Class("types_" + b.Kind)
 		}
 	}
+	// 'no encoding' named structs have no codec of their own; they are exercised through
+	// the types that embed them, and must at least exist as Go types.
+	neProblems, embedded, unreferenced := krammar.CheckNoEncoding(schema, binds, registry.Structs)
+	if len(neProblems) > 0 {
+		violation(t, "no-encoding", map[string]any{"problems": neProblems}, "definitions and Go types do not match: %s", strings.Join(neProblems, "; "))
+	}
 	if sh, _ := ev.Shard(); sh != 0 {
 		return
 	}
-	// no-encoding named structs are checked through the types that embed them; also
-	// compare their Go shapes directly when the registry cannot (they have no codec).
+	types, cells := map[string]int{}, map[string]int{}
+	for _, b := range binds {
+		types[b.Kind]++
+		cells[b.Kind] += len(b.Versions())
+	}
+	ev.Extra("grid", map[string]any{
+		"types_with_codec":                 len(binds),
+		"types_request":                    types["request"],
+		"types_response":                   types["response"],
+		"types_standalone":                 types["standalone"],
+		"cells_request":                    cells["request"],
+		"cells_response":                   cells["response"],
+		"cells_standalone":                 cells["standalone"],
+		"cells_total":                      cells["request"] + cells["response"] + cells["standalone"],
+		"definitions_named":                len(schema.Order),
+		"definitions_no_encoding_embedded": embedded,
+		"definitions_no_encoding_unreferenced_by_any_codec_type": unreferenced,
+		"go_struct_types_in_kmsg":                                len(registry.Structs),
+	})
 	ev.SampleIf(func() any {
 		return map[string]any{"schema": "parsed", "structs": len(schema.Order), "enums": len(schema.Enums), "bound_types": len(binds)}
 	})
